@@ -456,6 +456,7 @@ func (c *Collection) Update(key string, exp Exp, callback sgbucket.UpdateFunc) (
 	defer func() { traceExit("Update", err, "0x%x", casOut) }()
 	for {
 		raw, cas, _, err := c.getRaw(c.db(), key)
+		verifPoint("update.read.done", key)
 		var missingError sgbucket.MissingError
 		if err != nil && !errors.As(err, &missingError) {
 			return 0, err
@@ -609,15 +610,19 @@ func (c *Collection) withNewCas(fn func(txn *sql.Tx, newCas CAS) (*event, error)
 	var e *event
 	err := c.bucket.inTransaction(func(txn *sql.Tx) error {
 		newCas := uint64(hlc.Now())
+		verifPoint("cas.new", newCas)
 		var err error
 		e, err = fn(txn, newCas)
 		if err != nil {
 			return err
 		}
+		verifPoint("cas.afterdoc", newCas)
 		return c.setLastCas(txn, newCas)
 	})
 	if err == nil && e != nil {
+		verifPoint("post.before", e.cas)
 		c.postNewEvent(e)
+		verifPoint("post.after", e.cas)
 	}
 	return err
 }
